@@ -21,8 +21,11 @@ TMax  == Is("lmax") /\ maxv' = [x \in DOMAIN maxv \cup {Ev.o} |-> IF x = Ev.o TH
 \* the distinct triples <<a, b, s>> some reader saw on row o inside one callback
 TRead == /\ Is("lread") /\ UNCHANGED <<maxv, held>>
          /\ Ev.o \in DOMAIN maxv
-         /\ \A i \in DOMAIN Ev.seen :
-              LET t == Ev.seen[i] IN t[2] = 2 * t[1] /\ t[3] = t[1] /\ 0 <= t[1] /\ t[1] <= maxv[Ev.o]
+         \* the set is logged run-length encoded (lossless): <<a, b, s, n>> stands for the triples <<a+i, b+2i, s+i>>, i < n.
+         \* Every one of them is a committed version <<k, 2k, k>>, 0 <= k <= maxv, iff the first one is and the last one's
+         \* k does not exceed maxv (the three components advance in step with k).
+         /\ \A j \in DOMAIN Ev.runs :
+              LET r == Ev.runs[j] IN r[4] >= 1 /\ r[2] = 2 * r[1] /\ r[3] = r[1] /\ 0 <= r[1] /\ r[1] + r[4] - 1 <= maxv[Ev.o]
 \* probes
 THeld == Is("lheld") /\ held' = held \cup {Ev.b} /\ UNCHANGED maxv
 TRel  == Is("lrel")  /\ held' = held \ {Ev.b} /\ UNCHANGED maxv
